@@ -308,7 +308,10 @@ func checkC19(c *Ctx) {
 			arg := Desc(cl.Common().Args[1])
 			c.Check(arg == "u.Path", "R19.3", name, "opens-exactly-path", cl.Pos(), "the path opened is %s (must be exactly u.Path)", arg)
 			dnf := PathConds(cl.Block())
-			req := []struct{ slot string; ok func(string) bool }{
+			req := []struct {
+				slot string
+				ok   func(string) bool
+			}{
 				{"no-userinfo", func(s string) bool { return s == "u.User == nil" }},
 				{"no-fragment", func(s string) bool { return s == `u.Fragment == ""` }},
 				{"no-query", func(s string) bool { return s == `u.RawQuery == ""` }},
@@ -345,7 +348,10 @@ func checkC19(c *Ctx) {
 		c.Check(n == 1, "R19.4", "registry "+reg, "single-writer", 0, "exactly one map store into %s in non-test code (found %d in %v)", reg, n, where)
 	}
 	// lookups under the lock
-	for _, lk := range []struct{ fn *ssa.Function; reg, mu string }{
+	for _, lk := range []struct {
+		fn      *ssa.Function
+		reg, mu string
+	}{
 		{c.Method(zp, "sinkRegistry", "newSink"), "factories", "sr.mu"},
 		{c.Func(zp, "newEncoder"), "_encoderNameToConstructor", "_encoderMutex"},
 	} {
